@@ -269,6 +269,10 @@ DEFOP(pop) {
             path = pick_existing(st.A(2), true);
             put(op, "path", mv_str(path));
             MVal *t = ptr_resolve(w.pending_ref, path);
+            if (t && !deliberate_fail && has_ref_nodes(w.slots[w.pending_slot])) {
+                std::vector<MVal *> sub; mv_collect(t, sub);
+                for (MVal *x : sub) if (x->kids.size() > 32) { w.stats.probes["patch_test_covers_a_wide_container_of_a_document_with_references"]++; break; }
+            }
             MVal *v = (t && !deliberate_fail) ? mv_clone_value(t) : gen_value(vr, go);
             v->keystate = K_NONE;
             // permute object members of the expected value: equality is independent of member order
